@@ -34,6 +34,20 @@ Theorem C17_nonkafka_idle_refuted : exists grp evs, let s := state_after grp evs
 Proof. exists false, [EStart; ELookup 0 LBroker; EMeta 1 (RFail KNonKafka)]. split; [reflexivity|exact nonkafka_idle_witness]. Qed.
 Print Assumptions C17_nonkafka_idle_refuted.
 
+(* The same residual finding, second face: the constructor of a partition consumer raises inside on_join_complete (e.g. bad
+   consumer_kwargs).  The exception escapes _join_and_sync AFTER the member was marked joined: it is "stable", heartbeating, holds
+   an assignment it only partly consumes, the start() Deferred is outstanding and nothing tells the user.  (Not idle in the sense
+   of C17_never_idle - which is why the hypothesis of that theorem is about escapes, not about idleness.) *)
+Theorem C17_constructor_raises_refuted : exists grp evs, let s := state_after grp evs in
+  benign evs = false /\ start_d s <> None /\ stopping s = false /\ stop_requested s = false /\ escaped s = true /\
+  rejoin_needed s = false /\ hb_running s = true /\ gens s = [] /\ timers s = [] /\
+  length (cur_assign s) = 3%nat /\ length (consumers s) = 1%nat.
+Proof.
+  exists true, [EStart; ELookup 0 LBroker; EMeta 1 ROk; EJoin 2 (JOk 5 7 0); ESync 3 (SOkRaise [(0, 0); (0, 1); (1, 0)] 1)].
+  vm_compute. repeat split; auto; discriminate.
+Qed.
+Print Assumptions C17_constructor_raises_refuted.
+
 (* "stable" really is stable: not needing a rejoin means the heartbeat looper runs and no join is in flight;
    and the DelayedCall the member believes pending is one the reactor holds. *)
 Theorem C17_stable_means_heartbeating : forall grp evs, let s := state_after grp evs in
